@@ -37,6 +37,7 @@ type Result struct {
 	Key        string   // canonical key of the violation (matched against KNOWN_FINDINGS.txt)
 	Tags       []string // distribution tags (branches / error kinds hit)
 	Nontrivial bool     // counts towards distinct_nontrivial
+	Sig        string   // identity used for "distinct" (default: the op text); stateful props add the state
 }
 
 // Prop is the harness side of one property.
@@ -180,7 +181,11 @@ func run(args []string) {
 		}
 		if res.Nontrivial {
 			h := fnv.New64a()
-			h.Write([]byte(op))
+			if res.Sig != "" {
+				h.Write([]byte(res.Sig))
+			} else {
+				h.Write([]byte(op))
+			}
 			if !seen[h.Sum64()] {
 				seen[h.Sum64()] = true
 				rep.Distinct++
